@@ -320,8 +320,20 @@ func snapKey(s string) string {
 }
 
 func (e *Explorer) tracked(x *X, a Atom) (track, sticky bool) {
-	if e.H.Track != nil && (e.H.Track(x, a) || e.H.Track(x, a.Neg())) {
-		return true, true
+	if e.H.Track != nil {
+		if e.H.Track(x, a) || e.H.Track(x, a.Neg()) {
+			return true, true
+		}
+		// a test of a register copy (n := x.f; if n&4 != 0) names its operand
+		// x.f'@id: rules describe atoms by field paths, so ask again without
+		// the snapshot identities
+		if strings.Contains(a.L, SnapMark) || strings.Contains(a.R, SnapMark) {
+			pa := a
+			pa.L, pa.R = Plain(a.L), Plain(a.R)
+			if e.H.Track(x, pa) || e.H.Track(x, pa.Neg()) {
+				return true, true
+			}
+		}
 	}
 	if !e.AutoTrack {
 		return false, false
